@@ -184,7 +184,7 @@ impl ReadXml for Maybe<Candidate> {
                 (ResolveResult::Bound(XNM), Event::Start(tag))
                     if tag.local_name().as_ref() == b"name" && name.is_none() =>
                 {
-                    name = Some(reader.read_text(tag.to_end().name()).map(Name::new)?);
+                    name = Some(read_name(reader, &tag)?);
                 }
                 (ResolveResult::Bound(XNM), Event::Start(tag))
                     if tag.local_name().as_ref() == b"then" && !reject_policy =>
@@ -249,7 +249,7 @@ impl ReadXml for Maybe<Installed> {
                     if tag.local_name().as_ref() == b"name" && name.is_none() =>
                 {
                     tracing::debug!(?tag);
-                    name = Some(reader.read_text(tag.to_end().name()).map(Name::new)?);
+                    name = Some(read_name(reader, &tag)?);
                     tracing::debug!(?name);
                 }
                 (ResolveResult::Bound(XNM), Event::Start(tag))
@@ -322,6 +322,14 @@ impl ReadXml for Maybe<Installed> {
             Ok(Self(None))
         }
     }
+}
+
+/// Read the text of a policy-statement `<name>` element, resolving character and entity references
+/// (the name is written back through an escaping writer).
+fn read_name(reader: &mut NsReader<&[u8]>, start: &BytesStart<'_>) -> Result<Name, ReadError> {
+    let text = reader.read_text(start.to_end().name())?;
+    let name = quick_xml::escape::unescape(&text).map_err(quick_xml::Error::from)?;
+    Ok(Name::new(name))
 }
 
 /// Strip the insignificant whitespace around a token-valued leaf.
